@@ -562,6 +562,76 @@ theorem Apply_ok_ops (c : ACtx) (d u : Doc) (afs : List Doc) (d' : Doc) (ch : Li
     cases h
     exact ⟨s, hs, rfl, rfl⟩
 
+/-- an accepted update: its literal paths are pairwise unrelated. -/
+theorem Apply_ok_pairwise (c : ACtx) (d u : Doc) (afs : List Doc) (r : Doc × List (String × V))
+    (h : Apply c d u afs = .ok r) :
+    (updatePaths u).Pairwise fun a b => related (splitPath a) (splitPath b) = false :=
+  ((pathsConflict_false_iff [] _).mp (Apply_ok_noconflict c d u afs r h)).2
+
+/-- an accepted update: no two literal paths (positions i < j) are prefix-related. -/
+theorem Apply_ok_unrelated (c : ACtx) (d u : Doc) (afs : List Doc) (r : Doc × List (String × V))
+    (h : Apply c d u afs = .ok r) (i j : Nat) (p q : String) (hij : i < j)
+    (hp : (updatePaths u)[i]? = some p) (hq : (updatePaths u)[j]? = some q) :
+    isPrefixOf (splitPath p) (splitPath q) = false ∧ isPrefixOf (splitPath q) (splitPath p) = false := by
+  have hc := Apply_ok_noconflict c d u afs r h
+  cases h1 : isPrefixOf (splitPath p) (splitPath q) with
+  | true =>
+    rw [(pathsConflict_iff _).mpr ⟨i, j, p, q, hij, hp, hq, .inl h1⟩] at hc; cases hc
+  | false =>
+    cases h2 : isPrefixOf (splitPath q) (splitPath p) with
+    | true =>
+      rw [(pathsConflict_iff _).mpr ⟨i, j, p, q, hij, hp, hq, .inr h2⟩] at hc; cases hc
+    | false => exact ⟨rfl, rfl⟩
+
+theorem fieldPaths_key_mem (op : String) (fields : List (String × V)) (key : String) (v : V)
+    (hf : (key, v) ∈ fields) : key ∈ fieldPaths op fields := by
+  induction fields with
+  | nil => cases hf
+  | cons kv r ih =>
+    obtain ⟨k, x⟩ := kv
+    unfold fieldPaths
+    rcases List.mem_cons.mp hf with e | hm
+    · cases e
+      apply List.mem_append_left
+      split
+      · split <;> exact List.mem_cons_self
+      · exact List.mem_cons_self
+    · exact List.mem_append_right _ (ih hm)
+
+theorem fieldPaths_target_mem (fields : List (String × V)) (key target : String)
+    (hf : (key, V.str target) ∈ fields) : target ∈ fieldPaths "$rename" fields := by
+  induction fields with
+  | nil => cases hf
+  | cons kv r ih =>
+    obtain ⟨k, x⟩ := kv
+    unfold fieldPaths
+    rcases List.mem_cons.mp hf with e | hm
+    · cases e
+      apply List.mem_append_left
+      simp
+    · exact List.mem_append_right _ (ih hm)
+
+theorem updatePaths_fields_sub (u : Doc) (op : String) (fields : List (String × V))
+    (ho : (op, V.doc fields) ∈ u) : ∀ p ∈ fieldPaths op fields, p ∈ updatePaths u := by
+  induction u with
+  | nil => cases ho
+  | cons kv r ih =>
+    obtain ⟨k, x⟩ := kv
+    intro p hp
+    unfold updatePaths
+    rcases List.mem_cons.mp ho with e | hm
+    · cases e
+      exact List.mem_append_left _ hp
+    · exact List.mem_append_right _ (ih hm p hp)
+
+theorem updatePaths_key_mem (u : Doc) (op : String) (fields : List (String × V)) (key : String) (v : V)
+    (ho : (op, V.doc fields) ∈ u) (hf : (key, v) ∈ fields) : key ∈ updatePaths u :=
+  updatePaths_fields_sub u op fields ho _ (fieldPaths_key_mem op fields key v hf)
+
+theorem updatePaths_rename_target_mem (u : Doc) (fields : List (String × V)) (key target : String)
+    (ho : ("$rename", V.doc fields) ∈ u) (hf : (key, V.str target) ∈ fields) : target ∈ updatePaths u :=
+  updatePaths_fields_sub u "$rename" fields ho _ (fieldPaths_target_mem fields key target hf)
+
 /-- `record_conflict_free`: the paths recorded by a successful Apply are pairwise not prefix-related. -/
 theorem Apply_cf (c : ACtx) (d u : Doc) (afs : List Doc) (d' : Doc) (ch : List (String × V))
     (h : Apply c d u afs = .ok (d', ch)) : ConflictFree ch := by
